@@ -9,6 +9,7 @@ import shutil
 import subprocess
 
 GCC = shutil.which("gcc")
+GFORTRAN = shutil.which("gfortran")
 _DIAG = re.compile(r"^<stdin>:(\d+):(?:\d+:)? (warning|error|fatal error): (.*)$")
 
 
@@ -16,7 +17,7 @@ def available():
     return GCC is not None
 
 
-def run_batch(segments, prologue=(), lang="c", extra=()):
+def run_batch(segments, prologue=(), lang="c", extra=(), tool="gcc"):
     """segments: list of lists of lines.  Returns (stdout_text, diags) where diags maps
     segment index -> list of (severity, message); index -1 = prologue."""
     lines = list(prologue)
@@ -25,7 +26,11 @@ def run_batch(segments, prologue=(), lang="c", extra=()):
         starts.append(len(lines) + 1)
         lines.extend(seg)
     src = "\n".join(lines) + "\n"
-    p = subprocess.run([GCC, "-E", "-P", "-x", lang, *extra, "-"], input=src, capture_output=True, text=True)
+    if tool == "gfortran":
+        cmd = [GFORTRAN, "-cpp", "-E", "-P", "-x", "f95-cpp-input", *extra, "-"]
+    else:
+        cmd = [GCC, "-E", "-P", "-x", lang, *extra, "-"]
+    p = subprocess.run(cmd, input=src, capture_output=True, text=True)
     diags = {}
     for ln in p.stderr.splitlines():
         m = _DIAG.match(ln)
